@@ -50,7 +50,6 @@ type txCase struct {
 	excluded       int
 	newBranches    int
 	hotPKs         []int // rows of the current write target changed by other open transactions
-	headHash       map[string]string
 	headUnsure     map[string]bool
 }
 
@@ -63,6 +62,17 @@ func (c *txCase) class(s string) { c.cls[s] = true }
 // otherwise nothing is excluded and the model applies the property as stated (the failed
 // statement's transaction is over).
 const txFindingStaleTx = "C22-autocommit-stale-tx-after-failed-dml"
+
+// Known finding: when the head-level merge of a dolt_commit inside a transaction (head at the
+// transaction's start, head now, the committer's staged view) conflicts while the working-set merge
+// does not, dolt_commit succeeds and the new head commit carries an unresolved conflict artifact
+// (dsess/transactions.go mergeRoots merges the staged roots, validateWorkingSetForCommit looks at the
+// working root only). While listed open, nothing derived from such a head is asserted (rows of the
+// conflicting keys, "nothing to commit", branches created from it) and the occurrences are counted
+// as excluded; otherwise the generated cases assert that no commit carries a conflict artifact.
+const txFindingHeadArtifact = "C23-conflict-artifact-in-head-commit"
+
+func txHeadArtifactOpen() bool { return vh.OpenFinding("C23", txFindingHeadArtifact) }
 
 func txStaleTxOpen() bool {
 	return vh.OpenFinding("C22", txFindingStaleTx) || vh.OpenFinding("C23", txFindingStaleTx)
@@ -273,8 +283,8 @@ func (c *txCase) checkCommitted(q *vsql.Session, b, why string, heads bool) {
 		c.fail("%s: dolt_conflicts of %s is not empty: %s", why, b, vsql.Show(cf.Sorted()))
 	}
 	if heads {
-		if h := c.obsHash(q, b); h != c.headHash[b] {
-			c.fail("%s: head of %s moved: was %s now %s", why, b, c.headHash[b], h)
+		if h := c.obsHash(q, b); h != c.m.db.headHash[b] {
+			c.fail("%s: head of %s moved: was %s now %s", why, b, c.m.db.headHash[b], h)
 		}
 	}
 }
@@ -810,18 +820,19 @@ func (c *txCase) doDoltCommit(s *txSess) {
 	}
 	// (i) the new commit's first parent is the previous head
 	newHash := c.obsHash(c.obs, b)
-	if newHash == c.headHash[b] {
+	if newHash == c.m.db.headHash[b] {
 		c.fail("[%s] %s succeeded but the head of %s did not move (%s)", s.name, q, b, newHash)
 	}
 	pr, perr := c.obs.Query("SELECT parent_hash FROM dolt_commit_ancestors WHERE commit_hash='" + newHash + "' AND parent_index=0")
 	if perr != nil || len(pr.Data) != 1 {
 		c.fail("observer: dolt_commit_ancestors of %s: %v %v", newHash, pr, perr)
 	}
-	if pr.Data[0][0] != c.headHash[b] {
+	if pr.Data[0][0] != c.m.db.headHash[b] {
 		c.fail("[%s] %s: first parent of the new head %s is %s, but the head before the commit was %s (a commit was dropped from the history of %s)",
-			s.name, q, newHash, pr.Data[0][0], c.headHash[b], b)
+			s.name, q, newHash, pr.Data[0][0], c.m.db.headHash[b], b)
 	}
-	c.headHash[b] = newHash
+	prevHash := c.m.db.headHash[b]
+	c.m.db.headHash[b] = newHash
 	// (ii)+(iii) the head tables: the committer's view merged into the head as it was
 	nLoose := 0
 	for _, sc := range c.m.db.schemas {
@@ -855,21 +866,27 @@ func (c *txCase) doDoltCommit(s *txSess) {
 		}
 		c.m.db.setH(tgt, got)
 	}
+	movedByHash := s.snap.headHash[b] != prevHash
 	if nLoose > 0 {
-		// Where the head-level merge conflicts dolt keeps one side's row and (observed) records a
-		// conflict artifact inside the new commit that no SELECT of the table shows; until a later
-		// dolt_commit rewrites the head from a clean view, "nothing to commit" cannot be predicted.
+		// The head-level merge conflicts on nLoose keys although the working-set merge did not: the
+		// rows of those keys are not asserted. Does the new head commit carry a conflict artifact?
 		c.class("doltcommit_head_undetermined_rows")
-		c.headUnsure[b] = true
-		if r, e := c.obs.Query("SELECT COUNT(*) FROM `" + c.m.dbn + "/" + b + "`.dolt_status"); e == nil && len(r.Data) == 1 && r.Data[0][0] == "0" {
-			for _, sc := range c.m.db.schemas {
-				if a, e2 := c.obs.Query("SELECT COUNT(*) FROM dolt_conflicts_" + sc.name + " AS OF '" + b + "'"); e2 == nil && len(a.Data) == 1 && a.Data[0][0] != "0" {
-					c.class("observed_conflict_artifact_in_head_commit")
-				}
+		artifact := false
+		for _, sc := range c.m.db.schemas {
+			if a, e2 := c.obs.Query("SELECT COUNT(*) FROM dolt_conflicts_" + sc.name + " AS OF '" + b + "'"); e2 == nil && len(a.Data) == 1 && a.Data[0][0] != "0" {
+				artifact = true
 			}
 		}
-	} else if !headMoved {
-		c.headUnsure[b] = false
+		if artifact {
+			c.class("observed_conflict_artifact_in_head_commit")
+			if !txHeadArtifactOpen() {
+				c.fail("[%s] %s succeeded and the new head commit of %s carries an unresolved conflict (dolt_conflicts_<table> AS OF '%s' is not empty) while dolt_conflicts of the working set is empty", s.name, q, b, b)
+			}
+		}
+		c.headUnsure[b] = true
+		c.excluded++
+	} else if !movedByHash {
+		c.headUnsure[b] = false // the head was rewritten from the committer's own (clean) staged view
 	}
 	for tgt, t := range merged {
 		c.m.db.setW(tgt, t)
@@ -925,6 +942,8 @@ func (c *txCase) doNewBranch() {
 	for _, b := range c.m.db.branches {
 		if !c.headUnsure[b] {
 			sources = append(sources, b)
+		} else {
+			c.excluded++
 		}
 	}
 	if len(sources) == 0 {
@@ -945,7 +964,7 @@ func (c *txCase) doNewBranch() {
 		c.m.db.W[to] = c.m.db.H[from].Clone()
 		c.m.db.H[to] = c.m.db.H[from].Clone()
 	}
-	c.headHash[nb] = c.headHash[src]
+	c.m.db.headHash[nb] = c.m.db.headHash[src]
 	c.class("branch_created_mid_schedule")
 	for _, o := range c.sess {
 		if o.inTx && (!o.ac || o.explicit) {
@@ -959,7 +978,7 @@ func (c *txCase) doNewBranch() {
 // one generated case
 
 func txRunCase(rt *rapid.T, srv *vsql.Server, admin *vsql.Session, cfg *txCfg, rec *vh.Recorder) {
-	c := &txCase{rt: rt, cfg: cfg, srv: srv, cls: map[string]bool{}, headHash: map[string]string{}, headUnsure: map[string]bool{}}
+	c := &txCase{rt: rt, cfg: cfg, srv: srv, cls: map[string]bool{}, headUnsure: map[string]bool{}}
 	dbn := srv.NewDBName()
 	admin.MustExec(rt, "CREATE DATABASE "+dbn)
 	defer admin.Exec("DROP DATABASE " + dbn)
@@ -1052,7 +1071,7 @@ func txRunCase(rt *rapid.T, srv *vsql.Server, admin *vsql.Session, cfg *txCfg, r
 	c.obs = txOpen(rt, srv, "obs", dbn)
 	defer c.obs.Close()
 	for _, b := range branches {
-		c.headHash[b] = c.obsHash(c.obs, b)
+		c.m.db.headHash[b] = c.obsHash(c.obs, b)
 		c.checkCommitted(c.obs, b, "after setup", true)
 	}
 
